@@ -190,11 +190,13 @@ def scaling_oracle(ctx, spec, V, rng):
     """a bimolecular constant acts as k/V, a zero-order constant as k*V, order r as k/V^(r-1): the interface's stochastic
     volume propensities against the closed forms written out above, at random integer states."""
     M = build_model(spec)
-    from bioscrape.simulator import ModelCSimInterface
-    I = ModelCSimInterface(M)
+    from bioscrape.simulator import ModelCSimInterface, SafeModelCSimInterface
     sl = M.get_species_list()
     pv = dict(zip(M.get_param_list(), M.get_parameter_values()))
-    for _ in range(6):
+    for it in range(8):
+        # the plain and the safe interface (on whole counts the safe guard is zero exactly where the falling factorial is)
+        safe = it % 2 == 1
+        I = (SafeModelCSimInterface if safe else ModelCSimInterface)(M)
         x = {s_: float(rng.randint(0, 9)) for s_ in sl}
         got = np.array(I.py_verif_compute_propensities(np.array([x[s_] for s_ in sl]), "svol", float(V), 0.0), dtype=float)
         want = closed_form_svol(spec, pv, x, float(V))
@@ -203,10 +205,10 @@ def scaling_oracle(ctx, spec, V, rng):
             if w is None or spec["reactions"][j]["prop"]["type"] != "massaction":
                 continue            # Hill scaling is decided by C01 (its exact placement of V is part of C01's closed forms)
             if abs(got[j] - w) > 1e-9 * max(1.0, abs(w)):
-                ctx.violation("volume/scaling/order-%d" % len(spec["reactions"][j]["reactants"]),
-                              "reaction %d (%s) at V=%g, state %s: stochastic volume propensity %r, the volume-scaled rate law gives %r"
-                              % (j, "+".join(spec["reactions"][j]["reactants"]) or "0", V, x, float(got[j]), w),
-                              {"spec": spec, "V": V, "state": x, "reaction": j, "got": float(got[j]), "want": w})
+                ctx.violation("volume/scaling/order-%d%s" % (len(spec["reactions"][j]["reactants"]), "/safe" if safe else ""),
+                              "reaction %d (%s) at V=%g, state %s%s: stochastic volume propensity %r, the volume-scaled rate law gives %r"
+                              % (j, "+".join(spec["reactions"][j]["reactants"]) or "0", V, x, " (safe interface)" if safe else "", float(got[j]), w),
+                              {"spec": spec, "V": V, "state": x, "reaction": j, "got": float(got[j]), "want": w, "safe": safe})
                 return
         ctx.count("scaling_points")
 
